@@ -17,17 +17,17 @@ package action
 //@     (isAmt(fi) ==> cast(fi.FeeType, "*types/controller/action.FeeInfo_Amount_") != nil && cast(fi.FeeType, "*types/controller/action.FeeInfo_Amount_").Amount != nil && okInt(amtOf(fi)) && parseInt(amtOf(fi)) > 0)
 
 //@ func validateBasisPoints(bps) (err)
-//@   ensures[C04] err == nil ==> bps != nil && 1 <= bps.Value && bps.Value <= 10000
+//@   ensures[base,C04] err == nil ==> bps != nil && 1 <= bps.Value && bps.Value <= 10000
 
 //@ func validateAmount(amt) (err)
-//@   ensures[C04] err == nil ==> amt != nil && okInt(amt.Value) && parseInt(amt.Value) > 0
+//@   ensures[base,C04] err == nil ==> amt != nil && okInt(amt.Value) && parseInt(amt.Value) > 0
 
 //@ func (f *FeeInfo) Validate() (err)
-//@   ensures[C04] err == nil ==> validFeeInfo(f)
+//@   ensures[base,C04] err == nil ==> validFeeInfo(f)
 
 //@ func (f *FeeAttributes) Validate() (err)
-//@   loop 0 invariant[C04] forall k int :: 0 <= k && k < idx ==> validFeeInfo(f.FeesInfo[k])
-//@   ensures[C04] err == nil ==> f != nil && validFees(f.FeesInfo)
+//@   loop 0 invariant[base,C04] forall k int :: 0 <= k && k < idx ==> validFeeInfo(f.FeesInfo[k])
+//@   ensures[base,C04] err == nil ==> f != nil && validFees(f.FeesInfo)
 
 // Fee of one entry computed on amount A (the property's formula), and finite sums over the at most
 // five entries an accepted fee action can carry.
